@@ -13,14 +13,16 @@ ID = "C07"
 WITNESS = ("eps", "round")
 RULE = (
     "rule-based state machine per geometry type (Point, Line, Plane, Segment, HalfLine, ConvexPolygon, "
-    "ConvexPolyhedron): an initial lattice object, then up to 12 steps drawn from move(v, continue on the "
+    "ConvexPolyhedron): an initial lattice object (built from float or, where integral, Python int coordinates), "
+    "then up to 12 steps drawn from move(v, continue on the "
     "receiver | continue on the returned object) with lattice v including zero and axis vectors, deepcopy, "
     "there-and-back (v then -v), and query(other) where the other operand (Point/Line/HalfLine/Segment/Plane/"
     "triangle/tetrahedron) is built from feature points of the exact model at its current position. After every "
     "step the receiver and the value just returned are compared with a freshly constructed object at the "
     "translated position: == both ways, equal hash, canonical derived state (Segment/HalfLine.line, polygon plane/"
     "centre/cycle, polyhedron vertex/edge/face sets, outward normals, centre - the C09 predicates against the "
-    "translated exact model), measures equal to the exact ones (1e-9); every query (intersection both orders, "
+    "translated exact model; general_form / point_normal / parametric of moved planes and lines), measures equal "
+    "to the exact ones (1e-9); every query (intersection both orders, "
     "supported membership both directions, distance, angle, parallel, orthogonal) gives the same answer on "
     "receiver, returned object and fresh object, and intersection/membership also agree with the exact oracle. "
     "non-trivial = history with >= 2 moves and >= 1 query on a receiver after it moved; distinct = distinct history."
